@@ -378,6 +378,16 @@ def apply_op(env, table, frame_el, m, op, wit):
         m.frame_w = sum(m.widths)
         n["width-setter"] += 1
         raised = call(lambda: setattr(table.columns[op[1]], "width", Emu(op[2])))
+    elif kind in ("frameh", "framew"):
+        from pptx.shapes.graphfrm import GraphicFrame
+
+        gf = GraphicFrame(frame_el, env.slide.shapes)
+        if kind == "frameh":
+            m.frame_h = op[1]
+        else:
+            m.frame_w = op[1]
+        n["frame-resized-directly"] += 1
+        raised = call(lambda: setattr(gf, "height" if kind == "frameh" else "width", Emu(op[1])))
     else:
         raise ValueError("unknown op %r" % (op,))
     if raised:
@@ -554,6 +564,8 @@ def random_op(rnd, m, profile, step):
             return ["fld", cell[0], cell[1], t]
         return ["text", cell[0], cell[1], rnd.choice(("", t, t, t + "a\n" + t + "b", t + "a\n\n" + t + "b", "\n", t + "\vbr", "ü" + t, "\v", "\v\v"))]
     size = rnd.choice((0, 1, rnd.randrange(5000000), rnd.randrange(5000000)))
+    if rnd.random() < 0.2:  # the graphic frame itself resized (as PowerPoint does when text wraps): frame and rows/columns now disagree
+        return ["frameh" if kind == "rowh" else "framew", size]
     return ["rowh", cell[0], size] if kind == "rowh" else ["colw", cell[1], size]
 
 
